@@ -504,6 +504,7 @@ func c16Keys() []sb.V {
 	return []sb.V{
 		vstr("a"), vstr("b"), vstr("zz"), vstr("0"), vstr("1"), vstr("n"), vstr(""), vstr("7"),
 		vstr("url"), vstr("zero"), vstr("Get"), vstr("Encode"), vstr("Next"), {K: "safe", TS: []string{"html"}, E: []sb.V{vstr("a")}}, {K: "safe", TS: []string{"js"}, E: []sb.V{vnum(1)}}, {K: "safe", TS: []string{"html"}, E: []sb.V{vk("int", 7)}},
+		{K: "safe", TS: []string{"html"}, E: []sb.V{vstr("Get")}}, {K: "safe", TS: []string{"html"}, E: []sb.V{vstr("Next")}}, {K: "safe", TS: []string{"js"}, E: []sb.V{vstr("Name")}}, {K: "safe", TS: []string{"js"}, E: []sb.V{vstr("Greet")}},
 		vstr("Title"), vstr("Description"), vstr("Describe"), vstr("Meta"), vstr("title"), vstr("self"), vstr("missing"), sb.V{K: "nan"}, {K: "arrayofany"},
 		vstr("Name"), vstr("Age"), vstr("Tags"), vstr("M"), vstr("Inner"), vstr("priv"), vstr("Extra"), vstr("Person"), vstr("Nope"), vstr("unexported"),
 		vnum(0), vnum(1), vnum(2), vnum(3), vnum(-1), vnum(7), vnum(1.5), vnum(2.5), vnum(1e30), vnum(-1e30),
@@ -669,24 +670,29 @@ func init() {
 			recv{sb.V{K: "level", N: 2}, []string{"Next", "nope"}}, recv{sb.V{K: "ptr", E: []sb.V{{K: "values"}}}, []string{"Get", "Encode"}})
 		for _, rc := range recvs {
 			per := rc.v
-			for _, meth := range rc.meths {
+			for mi, methName := range append(append([]string(nil), rc.meths...), rc.meths...) {
 				idx++
 				if !c.Mine(idx) {
 					continue
+				}
+				// every method also under a name that is marked as safe
+				meth := vstr(methName)
+				if mi >= len(rc.meths) {
+					meth = sb.V{K: "safe", TS: []string{"html"}, E: []sb.V{vstr(methName)}}
 				}
 				lists := c16ArgLists()
 				req := &sb.Req{Op: "getattr"}
 				for _, al := range lists {
 					req.Vals = append(req.Vals, per)
-					req.Keys = append(req.Keys, vstr(meth))
+					req.Keys = append(req.Keys, meth)
 					req.Args = append(req.Args, al)
 				}
 				r := c.SB.DoOnce(req)
 				for i, al := range lists {
-					cs := &c16Case{C: per, K: vstr(meth), Args: al}
+					cs := &c16Case{C: per, K: meth, Args: al}
 					if r.Status == "ok" && i < len(r.Items) && judgeAttr(cs, r.Items[i]) == nil {
 						key, _ := jsonStr(cs)
-						c.Ev.Count(key, len(al) > 0, "expect:"+expectAttr(per, vstr(meth), al).mode, "grid:method-x-args")
+						c.Ev.Count(key, len(al) > 0, "expect:"+expectAttr(per, meth, al).mode, "grid:method-x-args")
 						continue
 					}
 					if !attr.Check(c, cs) {
